@@ -1,14 +1,193 @@
-//! C15 — stub, to be implemented.
+//! C15 — no HTTP/2 input can crash, wedge or over-commit a worker.
+//!
+//! Three plan families (one trigger feature per plan, carried in every violation key):
+//!  * `decoder`       — sozu's frame decoder driven in-process, cross-checked against the harness codec (c15_dec.rs)
+//!  * `abuse_client`  — one abusive HTTP/2 client over TLS next to well-behaved connections, then a probe (c15_gen/net/oracle.rs)
+//!  * `abuse_backend` — an abusive h2c backend while an H1 or H2 client waits (same files)
+//! The RFC 9113 expectation table is c15_model.rs.
 #![allow(dead_code)]
-use serde_json::Value;
+use serde_json::{json, Value};
+
+use crate::actors::h2::*;
+use crate::actors::Pace;
 use crate::framework::*;
+use crate::muxscn::*;
+
+#[path = "c15_dec.rs"]
+pub mod c15_dec;
+#[path = "c15_model.rs"]
+pub mod c15_model;
+#[path = "c15_net.rs"]
+pub mod c15_net;
+#[path = "c15_gen.rs"]
+pub mod c15_gen;
+#[path = "c15_oracle.rs"]
+pub mod c15_oracle;
+
+use c15_net::{Kind, NetPlan, Setup};
 
 pub struct C15;
 
+fn family_of(seed: u64) -> &'static str {
+    match (seed >> 7) % 16 { 0..=6 => "decoder", 7..=13 => "abuse_client", _ => "abuse_backend" }
+}
+
+fn summarize(np: &NetPlan) -> String {
+    let mut s = format!("{} buf={} ", np.mux.family, np.mux.knobs.buffer_size);
+    if let Some(ca) = &np.client_abuse { s += &format!("[abuse {} setup={:?} settled={} followup={} rate={:?}] expect={} ", ca.feature, ca.setup, ca.settled, ca.followup, ca.rate, c15_oracle::expect_client(ca, &np.h2, np.mux.knobs.buffer_size).short()); }
+    if let Some(ba) = &np.backend_abuse { s += &format!("[abuse {} expect={}] ", ba.feature, ba.expect.short()); }
+    s += &format!("h2knobs={:?} clients: {}", np.h2, np.mux.h2_clients.iter().map(|c| format!("{}(h2,{} ops)", c.name, c.script.len())).chain(np.mux.h1_clients.iter().map(|c| format!("{}(h1,{} reqs)", c.name, c.requests.len()))).collect::<Vec<_>>().join(" "));
+    s
+}
+
+fn run_net_plan(np: &NetPlan) -> RunReport {
+    let o = c15_net::run_net(np, false);
+    let violations = if np.client_abuse.is_some() { c15_oracle::oracle_client(np, &o) } else { c15_oracle::oracle_backend(np, &o) };
+    let mut rep = RunReport { seed: np.mux.seed, family: np.mux.family.clone(), violations, trace_hash: o.trace_hash, stats: o.stats.clone(), summary: summarize(np), ..Default::default() };
+    let mut add = |k: &str, n: u64| { *rep.probes.entry(k.to_string()).or_insert(0) += n; };
+    let done = o.h2_clients.iter().map(|r| r.streams.values().filter(|s| s.recv_end && s.status == Some(200)).count()).sum::<usize>() + o.h1_clients.iter().map(|c| c.responses.len()).sum::<usize>();
+    add("responses_completed", done as u64);
+    let mut abuse_bytes = 0u64;
+    if np.client_abuse.is_some() {
+        let r = &o.h2_clients[0];
+        abuse_bytes = r.abuse_sent.iter().map(|a| a.bytes).sum();
+        add("abuse_frames_sent", r.abuse_sent.iter().map(|a| a.frames).sum());
+        add("abuser_goaway_error", r.goaways.iter().filter(|g| g.code != 0).count().min(1) as u64);
+        add("abuser_goaway_enhance_your_calm", r.goaways.iter().filter(|g| g.code == 11).count().min(1) as u64);
+        add("abuser_rst_received", r.rst_recv.len() as u64);
+        add("abuser_closed_by_sozu", (r.eof || r.reset || r.io_err.is_some()) as u64);
+        add("abuser_followup_served", r.stream_for(c15_net::ID_FOLLOW).map_or(0, |s| (s.status == Some(200)) as u64));
+        if let Some(g) = r.goaways.iter().find(|g| g.code != 0) { if r.t_close_seen > g.t { add("release_after_goaway_ms_max", 0); let d = (r.t_close_seen - g.t) / crate::world::MS; let e = rep.probes.entry("release_after_goaway_ms_max".into()).or_insert(0); if d > *e { *e = d; } } }
+        let e = c15_oracle::expect_client(np.client_abuse.as_ref().unwrap(), &np.h2, np.mux.knobs.buffer_size);
+        let tag = match &e { c15_model::Expect::Conn { .. } => "expect_conn_error", c15_model::Expect::Stream { .. } => "expect_stream_error", c15_model::Expect::Tolerated => "expect_tolerated", c15_model::Expect::Refused { .. } => "expect_refused", c15_model::Expect::Ends => "expect_ends", c15_model::Expect::AnyOf(_) => "expect_set", c15_model::Expect::Any => "expect_robustness_only" };
+        *rep.probes.entry(tag.to_string()).or_insert(0) += 1;
+    } else if let Some(BackendRecords::H2(recs)) = o.backends.first() {
+        abuse_bytes = recs.iter().flat_map(|r| r.abuse_sent.iter()).map(|a| a.bytes).sum();
+        *rep.probes.entry("backend_connections".to_string()).or_insert(0) += recs.len() as u64;
+        *rep.probes.entry("backend_goaway_from_sozu".to_string()).or_insert(0) += recs.iter().filter(|r| !r.goaways.is_empty()).count() as u64;
+    }
+    *rep.probes.entry("abuse_bytes_sent".to_string()).or_insert(0) += abuse_bytes;
+    rep.nontrivial = done > 0 && (abuse_bytes > 0 || matches!(np.client_abuse.as_ref().map(|c| &c.kind), Some(Kind::Silent)));
+    if let Some(e) = o.boot_error { rep.harness_error = Some(format!("worker boot failed: {e}")); }
+    if !o.config_failures.is_empty() { rep.harness_error = Some(format!("configuration refused: {:?}", o.config_failures)); }
+    rep
+}
+
+fn shrink_net(np: &NetPlan) -> Vec<NetPlan> {
+    let mut out: Vec<NetPlan> = Vec::new();
+    let same = |a: &NetPlan, b: &NetPlan| serde_json::to_string(a).unwrap() == serde_json::to_string(b).unwrap();
+    // drop bystanders (the probe last)
+    for name in ["good2", "good1", "probe"] {
+        let mut q = np.clone();
+        q.mux.h2_clients.retain(|c| c.name != name);
+        q.mux.h1_clients.retain(|c| c.name != name);
+        if !same(&q, np) { out.push(q); }
+    }
+    let mut q = np.clone();
+    q.mux.sched.ev_truncate_pm = 0; q.mux.sched.ev_permute_pm = 0; q.mux.sched.preempt_pm = 0; q.mux.sched.short_write_pm = 0; q.mux.sched.eagain_pm = 0; q.mux.sndbufs = None;
+    if !same(&q, np) { out.push(q); }
+    for i in 0..np.mux.h2_clients.len() {
+        if !np.mux.h2_clients[i].pace.is_greedy() { let mut q = np.clone(); q.mux.h2_clients[i].pace = Pace::greedy(); out.push(q); }
+        if np.mux.h2_clients[i].conn.batch != 1 { let mut q = np.clone(); q.mux.h2_clients[i].conn.batch = 1; out.push(q); }
+        if np.mux.h2_clients[i].name == "good2" && np.mux.h2_clients[i].script.len() > 1 { for j in 0..np.mux.h2_clients[i].script.len() { let mut q = np.clone(); q.mux.h2_clients[i].script.remove(j); out.push(q); } }
+    }
+    for i in 0..np.mux.h1_clients.len() {
+        if !np.mux.h1_clients[i].pace.is_greedy() { let mut q = np.clone(); q.mux.h1_clients[i].pace = Pace::greedy(); out.push(q); }
+        if np.mux.h1_clients[i].name == "good1" && np.mux.h1_clients[i].requests.len() > 1 { for j in 0..np.mux.h1_clients[i].requests.len() { let mut q = np.clone(); q.mux.h1_clients[i].requests.remove(j); out.push(q); } }
+    }
+    if let Some(ca) = &np.client_abuse {
+        let mut alt: Vec<c15_net::ClientAbuse> = Vec::new();
+        if ca.settled { let mut c = ca.clone(); c.settled = false; alt.push(c); }
+        if ca.followup { let mut c = ca.clone(); c.followup = false; alt.push(c); }
+        if ca.rate != Rate::all_at_once() { let mut c = ca.clone(); c.rate = Rate::all_at_once(); alt.push(c); }
+        match &ca.setup { Setup::Open { siblings } if *siblings > 0 => { let mut c = ca.clone(); c.setup = Setup::Open { siblings: siblings - 1 }; alt.push(c); } Setup::HalfClosed { siblings } if *siblings > 0 => { let mut c = ca.clone(); c.setup = Setup::HalfClosed { siblings: siblings - 1 }; alt.push(c); } _ => {} }
+        let mut c = ca.clone();
+        let changed = match &mut c.kind {
+            Kind::PingFlood { count, .. } | Kind::SettingsFlood { count, .. } | Kind::EmptyData { count, .. } | Kind::Wu0Flood { count } | Kind::GlitchFlood { count } | Kind::RapidReset { count, .. } | Kind::ContFlood { count, .. } if *count > 1 => { *count -= (*count / 4).max(1); true }
+            Kind::Frame { flags, .. } if *flags & 0xd2 != 0 => { *flags &= !0xd2; true }
+            _ => false,
+        };
+        if changed { alt.push(c); }
+        for c in alt { let mut q = np.clone(); q.client_abuse = Some(c); c15_gen::rebuild(&mut q); out.push(q); }
+        if matches!(ca.kind, Kind::TooManyStreams { .. }) && np.h2.max_streams > 1 {
+            for m in [np.h2.max_streams / 2, np.h2.max_streams - 1] { if m >= 1 && m != np.h2.max_streams { let mut q = np.clone(); q.h2.max_streams = m; c15_gen::rebuild(&mut q); out.push(q); } }
+        }
+    }
+    if np.mux.knobs.buffer_size != 16393 { let mut q = np.clone(); q.mux.knobs.buffer_size = 16393; out.push(q); }
+    out
+}
+
+fn debug_net(np: &NetPlan) -> String {
+    let o = c15_net::run_net(np, true);
+    let mut s = String::new();
+    for l in &o.log { s += l; s.push('\n'); }
+    s += &format!("{}\n", summarize(np));
+    for (i, rec) in o.h2_clients.iter().enumerate() { s += &format!("H2 CLIENT {} abuse_sent={:?}: {}\n", np.mux.h2_clients[i].name, rec.abuse_sent, summarize_record(rec)); }
+    for (i, c) in o.h1_clients.iter().enumerate() { s += &format!("H1 CLIENT {}: {:?} responses={:?}\n", np.mux.h1_clients[i].name, c.rec, c.responses.iter().map(|m| (m.start.clone(), m.body_len, m.complete)).collect::<Vec<_>>()); }
+    for (bi, b) in o.backends.iter().enumerate() {
+        match b {
+            BackendRecords::H2(recs) => for r in recs { s += &format!("H2 BACKEND {bi} conn {} abuse_sent={:?}: {}\n", r.idx, r.abuse_sent, summarize_record(r)); },
+            BackendRecords::H1(recs) => for r in recs { s += &format!("H1 BACKEND {bi} conn {}: eof={} err={:?} requests={:?} parse_error={:?}\n", r.idx, r.eof, r.io_err, r.requests.iter().map(|m| (m.start.clone(), m.body_len, m.complete)).collect::<Vec<_>>(), r.parse_error); },
+        }
+    }
+    s += &format!("panicked={:?} aborted={:?} boot={:?} config_failures={:?} board={:?} stats: iterations={} spin_breaks={}\n", o.panicked, o.aborted, o.boot_error, o.config_failures, o.board, o.stats.epoll_waits, o.stats.spin_breaks);
+    let viol = if np.client_abuse.is_some() { c15_oracle::oracle_client(np, &o) } else { c15_oracle::oracle_backend(np, &o) };
+    for v in viol { s += &format!("VIOLATION {} | {} | {}\n", v.class, v.key, v.detail); }
+    s
+}
+
 impl Property for C15 {
     fn id(&self) -> &'static str { "C15" }
-    fn runs(&self, _tier: Tier) -> u64 { 0 }
-    fn gen_plan(&self, _seed: u64, _tier: Tier) -> Value { Value::Null }
-    fn run_plan(&self, _plan: &Value) -> RunReport { RunReport { harness_error: Some("not implemented".into()), ..Default::default() } }
-    fn descr(&self) -> Descr { Descr { level: "exploration", rule: "", assumptions: vec![], real: vec![], stub: vec![], not_covered: vec![] } }
+    fn runs(&self, tier: Tier) -> u64 { match tier { Tier::Quick => 5000, Tier::Thorough => 120000 } }
+    fn gen_plan(&self, seed: u64, tier: Tier) -> Value {
+        match family_of(seed) {
+            "decoder" => json!({"family": "decoder", "dec": c15_dec::generate(seed, tier)}),
+            "abuse_client" => json!({"family": "abuse_client", "net": c15_gen::gen_client(seed, tier)}),
+            _ => json!({"family": "abuse_backend", "net": c15_gen::gen_backend(seed, tier)}),
+        }
+    }
+    fn run_plan(&self, plan: &Value) -> RunReport {
+        match plan["family"].as_str().unwrap_or("") {
+            "decoder" => match serde_json::from_value::<c15_dec::DecPlan>(plan["dec"].clone()) { Ok(p) => c15_dec::run(&p), Err(e) => RunReport { harness_error: Some(format!("bad plan: {e}")), ..Default::default() } },
+            "abuse_client" | "abuse_backend" => match serde_json::from_value::<NetPlan>(plan["net"].clone()) { Ok(p) => run_net_plan(&p), Err(e) => RunReport { harness_error: Some(format!("bad plan: {e}")), ..Default::default() } },
+            f => RunReport { harness_error: Some(format!("unknown family {f}")), ..Default::default() },
+        }
+    }
+    fn shrink(&self, plan: &Value) -> Vec<Value> {
+        let fam = plan["family"].as_str().unwrap_or("").to_string();
+        match fam.as_str() {
+            "decoder" => serde_json::from_value::<c15_dec::DecPlan>(plan["dec"].clone()).map(|p| c15_dec::shrink(&p).into_iter().map(|q| json!({"family": "decoder", "dec": q})).collect()).unwrap_or_default(),
+            "abuse_client" | "abuse_backend" => serde_json::from_value::<NetPlan>(plan["net"].clone()).map(|p| shrink_net(&p).into_iter().map(|q| json!({"family": fam, "net": q})).collect()).unwrap_or_default(),
+            _ => vec![],
+        }
+    }
+    fn debug_plan(&self, plan: &Value) -> String {
+        match plan["family"].as_str().unwrap_or("") {
+            "abuse_client" | "abuse_backend" => debug_net(&serde_json::from_value::<NetPlan>(plan["net"].clone()).unwrap()),
+            _ => serde_json::to_string_pretty(&self.run_plan(plan)).unwrap(),
+        }
+    }
+    fn descr(&self) -> Descr {
+        Descr {
+            level: "exploration",
+            rule: "three seeded plan families, one abuse feature per plan (the feature is part of every violation key). decoder (7/16 of the plans, in-process): 24-48 byte strings per plan (1-3 frames with type x flags x stream id x length x pad-length octet from boundary values, then truncation / trailing garbage / header bit flips / declared-length changes) fed to sozu_lib::protocol::mux::parser::{frame_header, frame_body}: must not panic, must consume exactly 9 + declared payload octets or return an error, error code and decoded fields must agree with the harness's own RFC 9113 codec. abuse_client (7/16, netsim, real worker over real TLS): one abusive HTTP/2 client brings its connection into a seeded state (nothing sent / preface only / SETTINGS sent / settings exchanged / open POSTs with bodies in flight / half-closed streams awaiting a delayed answer / a completed stream / inside a header block / after its own GOAWAY) and sends ONE kind of abuse: every AbuseOp kind, single frames of every type with boundary payloads on every stream class (0, open, half-closed(remote), closed, idle, even, fresh), garbage, HTTP/1 text, partial preface / partial frames then silence, declared-length mismatches, reserved-bit frames, floods (PING, SETTINGS, empty DATA, stream-0 WINDOW_UPDATE, WINDOW_UPDATE on a closed stream, CONTINUATION, rapid reset) with counts below / around / far above the listener's documented thresholds (half of those plans lower the one threshold under test), header lists below / above the advertised SETTINGS_MAX_HEADER_LIST_SIZE, more concurrent streams than the advertised limit (with and without a later HPACK reference into a refused block); random fragmentation and pacing, optional buggify; concurrently 1-2 well-behaved connections (H2 over TLS and/or H1) with position-keyed bodies on another cluster, and a fresh probe connection 80 virtual seconds later. abuse_backend (2/16): the same from an h2c backend (frames directly behind its SETTINGS, or instead of the answer to the victim's first request) while an H1 or H2 client waits. Oracles: no worker panic; the run ends by itself (max_iterations / deadlock / virtual-time aborts of the simulator = wedge); the reaction prescribed by an RFC 9113 table written from the RFC (c15_model.rs; sets of acceptable outcomes: connection error with code set and GOAWAY-then-close, stream error with code set or escalation, tolerated with acknowledgements owed and a follow-up request served on the same connection, refused, must-end); the abusive connection is closed by sozu within 30 s of silence and within 3 s of an error GOAWAY; streams above the advertised MAX_CONCURRENT_STREAMS and header lists above the advertised MAX_HEADER_LIST_SIZE never reach the backend; sibling streams, bystanders and probe are answered byte-exactly within 10 virtual seconds; no accepted or backend socket is left 25 s after the last peer went away; the victim of an abusive backend gets the right answer, 502/503/504, a reset or a close, and well-formed frames. non-trivial = abuse bytes were sent (or the plan is 'silent') and at least one response completed; decoder plans: at least one byte string reached the decoder; distinct = trace hashes",
+            assumptions: vec![
+                "AF_UNIX stands in for TCP; release semantics (no debug assertions, wrapping arithmetic)",
+                "where several RFC 9113 rules are broken at once the error code of any of them is accepted; a stream error may always be escalated to a connection error with the same code (RFC 9113 5.4.1)",
+                "flood expectations use sozu's documented thresholds (doc/configure.md): count <= N/2 must be tolerated, count >= 3N+3 in one burst must end in GOAWAY(ENHANCE_YOUR_CALM), anything between admits both; the per-block CONTINUATION cap and the pre-response RST lifetime cap are exact",
+                "decoder family: PUSH_PROMISE may be rejected outright (sozu never enables push), SETTINGS with more than 64 entries and PRIORITY_UPDATE values above 1024 octets may be rejected (limits documented in parser.rs)",
+                "'prompt' reaction to a connection error = within 2 virtual seconds; a later close by a timeout counts as no reaction",
+                "the harness's static header blocks put :path before :authority to stay clear of the recorded kawa output-order panic; requests written by the peer engine keep the usual order",
+            ],
+            real: vec!["sozu_lib worker (Server::run): TLS termination (rustls + ring), mux H2 frontend and h2c backend state machines, parser, serializer, pkawa, converter, H2FloodDetector, timers, H1 backends", "sozu_lib::protocol::mux::parser called directly (decoder family)", "loona-hpack inside sozu"],
+            stub: vec!["IP network", "clock", "entropy", "abusive / well-behaved H2 peers (own codec, own HPACK encoder, rustls client)", "H1 peers", "master"],
+            not_covered: vec![
+                "connections that sozu is draining after its own graceful GOAWAY (soft stop): only draining after an error GOAWAY and after the client's GOAWAY is exercised",
+                "serializer round trip (pub(crate)); metamorphic re-segmentation of identical byte streams (only random segmentation per plan)",
+                "lifetime caps that need 10^4 frames (PING / SETTINGS / RST lifetime), stream-id exhaustion",
+                "abusive backends on TLS; abusive client on the cleartext listener (h2c prior knowledge is not offered by sozu's HTTP listener)",
+                "frames directly behind an h2c backend's SETTINGS all fall under one recorded defect (key backend/behind_settings), so distinct defects there are masked",
+            ],
+        }
+    }
 }
